@@ -103,6 +103,19 @@ def coq_obligations(pid, theorems, module=None):
             res.append(dict(name=t, ok=False, axioms=ax, detail=b.strip()[:400]))
     return res, out + err
 
+def coqchk(modules, timeout=3000):
+    """re-check the compiled property modules (and everything they depend on) with the independent checker;
+    returns (ok, axioms text)"""
+    cmd = ['coqchk', '-o', '-silent'] + [x for x in COQ_Q if True] + list(modules)
+    cmd = [c for c in cmd]
+    # coqchk has no -Q for the Extract dir in our use; reuse COQ_Q as is
+    rc, out, err = run(cmd, cwd=os.path.join(ROOT, 'coq'), timeout=timeout)
+    txt = out + err
+    m = re.search(r'\* Axioms:(.*?)\n\s*\n\* Constants', txt, re.S)
+    ax = m.group(1).strip() if m else 'unparsed'
+    ok = rc == 0 and ax == '<none>' and 'type-in-type: <none>' in txt and 'unsafe (co)fixpoints: <none>' in txt and 'positivity is assumed: <none>' in txt
+    return ok, ax if rc == 0 else (txt[-400:])
+
 def forbidden_grep():
     """no Admitted / admit / Axiom / Parameter / ... anywhere in the development"""
     bad = []
